@@ -111,7 +111,10 @@ func ParseHeaderDirective(header http.Header) *HeaderDirectives {
 			if cc, err := parseCacheControl(strings.Join(values, ",")); err == nil {
 				hd.CacheControl.value = typeutils.Some(cc)
 			} else {
+				// A Cache-Control we cannot understand must not be mistaken for an absent one
+				// (which would make e.g. "no-store, max-age=abc" storable): treat it as no-cache.
 				slog.Debug("Error parsing Cache-Control header", "error", err, "value", value)
+				hd.CacheControl.value = typeutils.Some(cacheControl{noCache: true})
 			}
 		case "Expires":
 			if t, err := time.Parse(http.TimeFormat, value); err == nil {
